@@ -12,7 +12,7 @@ import torch
 
 NAMES = ["a", "b", "c", "x1", "_p", "data", "values", "items", "0", "12", "é", "名", "a.b",
          "with space", "A", "tensor", "module", "shape", "attrs", "k-1", "_private", "n", "arr",
-         "keys", "c0", "info", "child", "count", "flag"]
+         "keys", "c0", "info", "child", "count", "flag", ".dm4", ".hidden", "..x", "~t", "#h", "a b.c"]
 STRS = ["", "a", "hello world", "é名", "a.b/c", "it's \"q\"", "0", "None", "true", " lead", "x" * 40,
         "line\nbreak", "tab\t", "{}", "[1]", "1e5", "nan"]
 INTS = [0, 1, -1, 2, 7, 255, -128, 2 ** 31 - 1, -(2 ** 31), 2 ** 53, 2 ** 53 + 1, -(2 ** 62),
